@@ -16,8 +16,8 @@
 
    Deviation reproduced on purpose: parseRelationalExpression recurses on its
    RIGHT operand (Right: p.parseRelationalExpression()), so a<b<c is read as
-   a<(b<c); in a no-in context the middle operand of ?: keeps noin (ES5 11.12
-   resets it).
+   a<(b<c).  (The middle operand of ?: is parsed with allowIn = true, ES5 11.12,
+   since /repo 18fccf6.)
 
    One refactoring: Go's AllowCall loop {. [ (} after a primary/new head is
    written as "member level first (loop {. [}), then loop {. [ (}".  The two are
@@ -128,7 +128,7 @@ Definition step (self : nat -> bool -> parser) (k : nat) (noin : bool) (ts : lis
   | KCond =>
       match self 3 noin ts with
       | Some (c, (_, TQ) :: r) =>
-          match self 1 noin r with
+          match self 1 false r with                 (* allowIn = true for the middle operand *)
           | Some (a, (_, TColon) :: r') =>
               match self 1 noin r' with Some (b, r'') => Some (ECond c a b, r'') | None => None end
           | _ => None
